@@ -189,7 +189,7 @@ def step (s : DState) (toks : List String) : DState × String :=
     ({ s with opts := o, filters := fs }, showFilters fs)
   | "req" :: attrs =>
     let r := parseReq attrs
-    (s, s!"{decTok (evalFilters s.filters r)} {decTok (specDecision s.wl s.policies r)}")
+    (s, s!"{decTok (evalFilters s.filters r)} {decTok (specDecision s.wl s.bundle s.policies r)}")
   | _ => (s, "bad-op")
 
 /-- Stream `hyps` (not compared with the implementation): for every `req` line, whether the
@@ -202,7 +202,7 @@ def stepHyps (s : DState) (toks : List String) : DState × String :=
     let r := parseReq attrs
     let sel := selectPolicies s.wl s.policies
     (s, s!"hyps={boolTok (hypsB s.opts sel r)} tr={boolTok (translatableB s.opts sel)} " ++
-        s!"compiled={decTok (evalFilters s.filters r)} spec={decTok (specDecision s.wl s.policies r)}")
+        s!"compiled={decTok (evalFilters s.filters r)} spec={decTok (specDecision s.wl s.bundle s.policies r)}")
   | "build" :: _ => let (s', _) := step s toks; (s', "built")
   | _ => step s toks
 
